@@ -203,7 +203,7 @@ impl<const HOSTILE: bool> CheckDef for Sp<HOSTILE> {
     type Case = Case;
     const NAME: &'static str = if HOSTILE { "sp-hostile" } else { "sp-disciplined" };
     fn strategy(tier: Tier) -> BoxedStrategy<Case> {
-        rxgen::strategy(RxGen { early_shutdown: HOSTILE, hostile: HOSTILE, max_steps: tier.pick(60, 150), with_writes: false, long_idle: false }).prop_map(|sp| Case { sp }).boxed()
+        rxgen::strategy(RxGen { early_shutdown: HOSTILE, hostile: HOSTILE, max_steps: tier.pick(60, 150), with_writes: false, long_idle: false, fin_retx: false }).prop_map(|sp| Case { sp }).boxed()
     }
     fn run(case: &Case, trace: bool) -> Outcome {
         let res = sp::run(&case.sp, trace);
